@@ -409,6 +409,14 @@ func registerStd(e *Engine) {
 		var cell value = reHandle{regexp.MustCompile(goString(a[0]))}
 		return &cell
 	})
+	R("regexp.Compile", func(fr *frame, a []value) value {
+		re, err := regexp.Compile(goString(a[0]))
+		if err != nil {
+			return tuple{(*value)(nil), makeError(fr, err.Error())}
+		}
+		var cell value = reHandle{re}
+		return tuple{&cell, iface{}}
+	})
 	R("(*regexp.Regexp).MatchString", func(fr *frame, a []value) value {
 		return (*derefPtr(a[0], "regexp")).(reHandle).re.MatchString(goString(a[1]))
 	})
